@@ -75,6 +75,32 @@ def showClasses (l : List (List Nat)) : String :=
 def sortClasses (l : List (List Nat)) : List (List Nat) :=
   l.foldl (fun acc c => let (a, b) := acc.span (fun d => (d.headD 0) ≤ (c.headD 0)); a ++ c :: b) []
 
+/-! ### wave 6: adaptor stacks on the abstract graph -/
+
+/-- one adaptor of a stack descriptor applied to the abstract graph: `rev` (Reversed), `ef:<w>` (EdgeFiltered that
+drops the edges of weight `w`), `nf:<x>` (NodeFiltered that drops node `x` and the edges at it) -/
+def applyAdaptor (g : MGraph) (op : String) : Option MGraph :=
+  match op.splitOn ":" with
+  | ["rev"] => some { g with edges := g.edges.map fun e => { e with src := e.tgt, tgt := e.src } }
+  | ["ef", w] => w.toInt?.map fun w => { g with edges := g.edges.filter fun e => e.w != w }
+  | ["nf", x] => x.toNat?.map fun x =>
+      { g with nodes := g.nodes.filter (· != x), edges := g.edges.filter fun e => e.src != x && e.tgt != x }
+  | _ => none
+
+/-- `rev.ef:2` = `Reversed(&EdgeFiltered(g))`: outermost first, so the operations are applied from the right -/
+def applyStack (g : MGraph) (stack : String) : Option MGraph :=
+  (stack.splitOn ".").foldr (fun op acc => acc.bind fun g => applyAdaptor g op) (some g)
+
+/-- `a:r,r;b:-` rows of sorted neighbour lists, nodes ascending -/
+def showAdj (g : MGraph) (inc : Bool) : String :=
+  let ns := sortNats g.nodes
+  if ns.isEmpty then "-" else
+  String.intercalate ";" (ns.map fun a => s!"{a}:{showNats (sortNats (if inc then g.pred a else g.succ a))}")
+
+/-- the graph without the nodes `bl` -/
+def dropNodes (g : MGraph) (bl : List Nat) : MGraph :=
+  { g with nodes := g.nodes.filter (!bl.contains ·), edges := g.edges.filter fun e => !bl.contains e.src && !bl.contains e.tgt }
+
 /-- absolute judgement where a proved oracle determines the answer -/
 def judgeAbs (g : MGraph) (algo : String) (args : List String) (impl : String) : Option String :=
   let arg0 := (args.headD "0").toNat?.getD 0
@@ -88,6 +114,25 @@ def judgeAbs (g : MGraph) (algo : String) (args : List String) (impl : String) :
     match reachB g arg0 arg1 with
     | some b => if showBool b == impl then none else some s!"has_path {arg0} {arg1} = {impl}, reachability says {showBool b}"
     | none => none
+  | "adj" =>
+    let want := showAdj g (args.getD 0 "out" == "in")
+    if want == impl then none else some s!"neighbour lists ({args.getD 0 "out"}) are {impl}, the abstract graph has {want}"
+  | "dfs_resume" =>
+    -- Dfs from arg0 to exhaustion, the nodes U re-opened with `unvisit`, `move_to arg1`, run again: `unvisit`
+    -- answers "was marked" (= reachable from arg0) and clears the mark; the second pass emits what arg1 reaches
+    -- without entering a node that is still marked
+    match reachFrom g arg0 with
+    | none => none
+    | some r =>
+      let us := parseNats (args.getD 2 "-")
+      let blocked := r.filter (!us.contains ·)
+      let pass2 := if blocked.contains arg1 then some [] else reachFrom (dropNodes g blocked) arg1
+      match pass2 with
+      | none => none
+      | some p2 =>
+        let bits (l : List Bool) : String := if l.isEmpty then "-" else String.intercalate "," (l.map fun b => if b then "1" else "0")
+        let want := s!"unvisit={bits (us.map r.contains)} marked={bits (us.map fun _ => false)} pass2={showNats (sortNats p2)}"
+        if want == impl then none else some s!"dfs_resume {arg0} {arg1} reopening {showNats us}: [{impl}], the set specification gives [{want}]"
   | "topo_set" =>
     let bad := C08.cyclicOrDownstream g
     let want := g.nodes.filter fun x => !bad.contains x
@@ -139,43 +184,56 @@ def step (d : DState) (req : List String) (impl : String) : DState × String :=
         ({ d with views := (enc, { v := v, er := parseErField er }) :: d.views }, "ok")
       else (d, s!"SPECFAIL side condition neighbors = targets of edges does not hold: encoding {enc}")
     | _, _ => (d, s!"SPECFAIL unparsable view line of encoding {enc}")
-  | "run" :: algo :: _ =>
+  | "law" :: _ =>
+    -- a law checked by the harness against the implementation itself (VisitMap as a set, iterator laws)
+    if impl == "ok" then (d, "ok") else (d, s!"SPECFAIL law violated: {String.intercalate " " req}: {impl}")
+  | "run" :: algo0 :: _ =>
     let (key, enc) := keyOf req
-    let args := (req.drop 2).filter fun w => !(w.startsWith "enc=")
-    let holes := (enc.splitOn "+holes").length > 1
-    -- open finding D12: page_rank on an encoding with vacant indices
-    let known12 := algo == "page_rank" && holes
-    -- open finding D25: maximum_matching on directed storage (outside `C07_maximum_matching_checked`: undirected only)
-    let known25 := algo == "maximum_matching" && d.g.directed
-    let argN (i : Nat) : Nat := (args.getD i "0").toNat?.getD 0
-    -- G-A: the hypotheses of `C07_<algo>_checked` on the views of the two compared encodings
-    let scope (renc : String) : Option String :=
-      if known12 || known25 then none
-      else match d.views.lookup (baseEnc renc), d.views.lookup (baseEnc enc) with
-        | some e1, some e2 => pairWhy algo renc enc e1 e2 (argN 0) (argN 1) (argN 2)
-        | none, _ => some s!"SPECFAIL no view line for encoding {renc}"
-        | _, none => some s!"SPECFAIL no view line for encoding {enc}"
-    match d.refs.find? (·.1 == key) with
-    | none =>
-      if impl == "panic" then
-        -- remember it; a later non-panicking encoding makes this a violation
-        ({ d with refs := (key, enc, impl) :: d.refs }, "ok")
-      else match judgeAbs d.g algo args impl with
-        | some why => (d, s!"SPECFAIL {why} (encoding {enc})")
-        | none =>
-          if known12 then (d, "ok")   -- never take a D12-affected answer as the reference
-          else ({ d with refs := (key, enc, impl) :: d.refs }, "ok")
-    | some (_, renc, rans) =>
-      if let some why := scope renc then (d, why)
-      else if rans == impl then (d, "ok")
-      else if known12 then (d, s!"KNOWN D12 page_rank on {enc} differs from {renc}: [{impl}] vs [{rans}]")
-      else if known25 && impl != "panic" && rans != "panic" then
-        (d, s!"KNOWN D25 maximum_matching on directed storage depends on the encoding: {renc}: [{rans}]  {enc}: [{impl}]")
-      else if impl == "panic" then (d, s!"SPECFAIL {key}: panics on encoding {enc} but answers [{rans}] on {renc}")
-      else if rans == "panic" then (d, s!"SPECFAIL {key}: panics on encoding {renc} but answers [{impl}] on {enc}")
-      else match judgeAbs d.g algo args impl with
-        | some why => (d, s!"SPECFAIL {why} (encoding {enc}; {renc} answered [{rans}])")
-        | none => (d, s!"SPECFAIL {key}: encodings disagree — {renc}: [{rans}]  {enc}: [{impl}]")
+    let args0 := (req.drop 2).filter fun w => !(w.startsWith "enc=")
+    -- wave 6: `a_<algo> <stack> …` is `<algo> …` on the adaptor stack; judged on the abstract graph under the same stack
+    let adapted := algo0.startsWith "a_"
+    let algo := if adapted then (algo0.drop 2).toString else algo0
+    let args := if adapted then args0.drop 1 else args0
+    match (if adapted then applyStack d.g (args0.headD "") else some d.g) with
+    | none => (d, s!"SPECFAIL bad adaptor stack in request {req}")
+    | some gJ =>
+      let holes := (enc.splitOn "+holes").length > 1
+      -- open finding D12: page_rank on an encoding with vacant indices
+      let known12 := algo == "page_rank" && holes
+      -- open finding D25: maximum_matching on directed storage (outside `C07_maximum_matching_checked`: undirected only)
+      let known25 := algo == "maximum_matching" && d.g.directed
+      let argN (i : Nat) : Nat := (args.getD i "0").toNat?.getD 0
+      -- G-A: the hypotheses of `C07_<algo>_checked` on the views of the two compared encodings
+      let scope (renc : String) : Option String :=
+        if known12 || known25 || adapted then none
+        else match d.views.lookup (baseEnc renc), d.views.lookup (baseEnc enc) with
+          | some e1, some e2 =>
+            -- `dfs_resume`: the view conditions of the Dfs theorems (`C07_dfs_checked`) on both encodings; the answer
+            -- itself is judged absolutely (`judgeAbs`), no C07 theorem speaks about the resumed walk
+            pairWhy (if algo == "dfs_resume" then "dfs_set" else algo) renc enc e1 e2 (argN 0) (argN 1) (argN 2)
+          | none, _ => some s!"SPECFAIL no view line for encoding {renc}"
+          | _, none => some s!"SPECFAIL no view line for encoding {enc}"
+      match d.refs.find? (·.1 == key) with
+      | none =>
+        if impl == "panic" then
+          -- remember it; a later non-panicking encoding makes this a violation
+          ({ d with refs := (key, enc, impl) :: d.refs }, "ok")
+        else match judgeAbs gJ algo args impl with
+          | some why => (d, s!"SPECFAIL {why} (encoding {enc})")
+          | none =>
+            if known12 then (d, "ok")   -- never take a D12-affected answer as the reference
+            else ({ d with refs := (key, enc, impl) :: d.refs }, "ok")
+      | some (_, renc, rans) =>
+        if let some why := scope renc then (d, why)
+        else if rans == impl then (d, "ok")
+        else if known12 then (d, s!"KNOWN D12 page_rank on {enc} differs from {renc}: [{impl}] vs [{rans}]")
+        else if known25 && impl != "panic" && rans != "panic" then
+          (d, s!"KNOWN D25 maximum_matching on directed storage depends on the encoding: {renc}: [{rans}]  {enc}: [{impl}]")
+        else if impl == "panic" then (d, s!"SPECFAIL {key}: panics on encoding {enc} but answers [{rans}] on {renc}")
+        else if rans == "panic" then (d, s!"SPECFAIL {key}: panics on encoding {renc} but answers [{impl}] on {enc}")
+        else match judgeAbs gJ algo args impl with
+          | some why => (d, s!"SPECFAIL {why} (encoding {enc}; {renc} answered [{rans}])")
+          | none => (d, s!"SPECFAIL {key}: encodings disagree — {renc}: [{rans}]  {enc}: [{impl}]")
   | _ => (d, s!"SPECFAIL bad request {req}")
 
 end PetgraphModel.C07
